@@ -95,6 +95,8 @@ def cases(rng, tier):
             if tier == "thorough":
                 yield one(rng, op, 4 * rng.choice([0, 2]), regs)
     # pc-relative forms whose target is the first instruction / the instruction itself / the next one
+    for addr, imm in ((4096, -8), (4096, 8), (4400, 0), (8192, -4096)):          # printed absolute targets >= 4096 (jal has 21 bits, not a branch's 13)
+        yield one(rng, "jal", addr, tok=f"jal,{rng.choice([0, 1])},0,0,{imm},{addr + imm}")
     for addr in (4, 8, 132):
         for imm in (-addr, 0, 4, 4 - addr):
             yield one(rng, "jal", addr, tok=f"jal,{rng.choice([0, 1, 5])},0,0,{imm},{addr + imm}")
